@@ -59,6 +59,7 @@ func (o *operations) tryEnqueue(op operation) bool {
 
 	if o.busyCh == nil {
 		o.busyCh = make(chan struct{})
+		verifYield("!spawn")
 		go o.start()
 	}
 
@@ -91,14 +92,18 @@ func (o *operations) Done() {
 
 		return
 	}
+	verifYield("ops.done.wait")
 	wg.Wait()
+	verifYield("ops.done.woke")
 }
 
 // waitUntilIdle blocks until no worker is left. The worker may hand off to a
 // fresh one (with a fresh busyCh) in between, so the channel is re-read.
 func (o *operations) waitUntilIdle(busyCh chan struct{}) {
 	for busyCh != nil {
+		verifYield("ops.idle.wait")
 		<-busyCh
+		verifYield("ops.idle.woke")
 		o.mu.Lock()
 		busyCh = o.busyCh
 		o.mu.Unlock()
@@ -143,8 +148,10 @@ func (o *operations) pop() func() {
 
 func (o *operations) start() {
 	defer func() {
+		verifYield("ops.defer")
 		o.mu.Lock()
 		defer o.mu.Unlock()
+		defer verifYield("!exit")
 		// this wil lbe the most recent busy chan
 		close(o.busyCh)
 
@@ -157,13 +164,17 @@ func (o *operations) start() {
 		// either a new operation was enqueued while we
 		// were busy, or an operation panicked
 		o.busyCh = make(chan struct{})
+		verifYield("!spawn")
 		go o.start()
 	}()
 
+	verifYield("ops.start")
 	fn := o.pop()
+	verifYield("ops.popped")
 	for fn != nil {
 		fn()
 		fn = o.pop()
+		verifYield("ops.popped")
 	}
 	if !o.updateNegotiationNeededFlagOnEmptyChain.Load() {
 		return
